@@ -8,7 +8,7 @@
    the precondition the standard (plus the fixed capacity) gives it.  That is decided on the
    abstract value of the two objects (lists, as for std::vector); a moved-from element of a
    type with move operations holds the marker value. *)
-From Tetl Require Import Lib.Base C06a.Instances C03.Trace C03.Model.
+From Tetl Require Import Lib.Base C06a.Instances C03.Trace C03.Model C03.ModelOwn.
 Local Open Scope nat_scope.
 
 Definition sstate : Type := (list Z * list Z)%type.
@@ -19,6 +19,10 @@ Definition ins (l : list Z) (pos : nat) (xs : list Z) : list Z := firstn pos l +
 Definition del (l : list Z) (f n : nat) : list Z := firstn f l ++ skipn (f + n) l.
 Definition marked (fl : bool) (l : list Z) : list Z := if fl then map (fun _ => moved_marker) l else l.
 Definition resized (l : list Z) (k : nat) (x : Z) : list Z := firstn k l ++ repeat x (k - length l).
+
+Definition set_mem (x : Z) (l : list Z) : bool := existsb (Z.eqb x) l.
+Definition set_ins (l : list Z) (x : Z) : list Z :=
+  filter (fun v => (v <? x)%Z) l ++ [x] ++ filter (fun v => negb (v <? x)%Z) l.
 
 (* None: the call is outside its documented precondition *)
 Definition spec_step (fl : bool) (cap : nat) (s : sstate) (o : op) : option sstate :=
@@ -53,7 +57,17 @@ Definition spec_step (fl : bool) (cap : nat) (s : sstate) (o : op) : option ssta
   | MoveRoundTrip t => Some s
   | EraseIf t pid => Some (sput t s (filter (fun v => negb (pred_of pid v)) (sget t s)))
   | EraseVal t x => Some (sput t s (filter (fun v => negb (Z.eqb v x)) (sget t s)))
-  | SelfCopyAssign t | SelfMoveAssign t | SelfSwap t => Some s
+  | SelfCopyAssign t | SelfMoveAssign t | SelfSwap t | IvSelfCopyAssign t | IvSelfMoveAssign t => Some s
+  | IvCopyAssign t => Some (sput t s (sget (negb t) s))
+  | IvMoveAssign t => Some (sput (negb t) (sput t s (sget (negb t) s)) [])
+  (* std::set / std::flat_set on the sorted list: insert is a no-op when the key is present; the
+     fixed capacity: static_set::insert silently does nothing when full, flat_set over a
+     static_vector has the vector's precondition *)
+  | SetInsertRv t x | SetInsertCr t x | SetEmplace t x =>
+      Some (if set_mem x (sget t s) || (room t =? 0) then s else sput t s (set_ins (sget t s) x))
+  | FlatInsertRv t x | FlatInsertCr t x | FlatEmplace t x =>
+      if set_mem x (sget t s) then Some s else chk (1 <=? room t) (sput t s (set_ins (sget t s) x))
+  | SetEraseKey t x | FlatEraseKey t x => Some (sput t s (filter (fun v => negb (Z.eqb v x)) (sget t s)))
   end.
 
 Fixpoint spec_run (fl : bool) (cap : nat) (s : sstate) (ops : list op) : option sstate :=
@@ -69,5 +83,38 @@ Definition count_self (ops : list op) : nat :=
 Definition spec_verdict (fl : bool) (cap : nat) (ops : list op) : option (bool * nat * list bool) :=
   match spec_run fl cap ([], []) ops with
   | Some _ => Some (true, 0, repeat true (count_self ops))
+  | None => None
+  end.
+
+(** * variant / optional / expected / inplace_function
+   The abstract state is which alternative each object holds (std::variant::index(), has_value(),
+   std::function being empty or not).  The only precondition is that an empty function is not
+   invoked.  The expected verdict is again constant, plus [storage_wf]. *)
+Definition own_spec_step (s : nat * nat) (o : oop) : option (nat * nat) :=
+  match o with
+  | VEmplace t j _ | VAssignRv t j _ | VAssignCr t j _ | VAssignConv t j _ | VAssignTmp t j _ => Some (upd t s j)
+  | VCopyAssign t | VMoveAssign t => Some (upd t s (sel (negb t) s))
+  | VSwap | FSwap => Some (snd s, fst s)
+  | FAssign t k _ => Some (upd t s k)
+  | FAssignNull t | FMoveConstruct t => Some (upd t s 0)
+  | FCopyAssign t => Some (upd t s (sel (negb t) s))
+  | FMoveAssign t => Some (upd t (upd (negb t) s 0) (sel (negb t) s))
+  | FInvoke t => if sel t s =? 0 then None else Some s
+  | _ => Some s
+  end.
+
+Fixpoint own_spec_run (s : nat * nat) (ops : list oop) : option (nat * nat) :=
+  match ops with
+  | [] => Some s
+  | o :: rest => match own_spec_step s o with Some s' => own_spec_run s' rest | None => None end
+  end.
+
+Definition own_count_self (ops : list oop) : nat :=
+  length (filter (fun o => match own_self o with Some _ => true | None => false end) ops).
+
+(* (wf, alive, self-operation identities, storage_wf); None outside the domain *)
+Definition own_spec_verdict (ops : list oop) : option (bool * nat * list bool * bool) :=
+  match own_spec_run (0, 0) ops with
+  | Some _ => Some (true, 0, repeat true (own_count_self ops), true)
   | None => None
   end.
